@@ -57,7 +57,7 @@ def same_count_mask(rng, mask):
 
 
 def rand_script(rng, nops):
-    dims = [rng.randint(1, 3), rng.randint(1, 3), rng.randint(1, 3)]
+    dims = [rng.randint(1, 4), rng.randint(1, 4), rng.randint(1, 3)]
     nx, ny, nz = dims
     nc = nx * ny * nz
     dx = [rng.randint(1, 4) for _ in range(nx)]
